@@ -22,14 +22,17 @@ ON = {"ODE": ["dyn_loss", "initial_condition", "observations"], "statio": ["dyn_
 PR = "jinns.parameters._params:"
 
 
-def batched(kind, K, B, grad_group=None, int_caller=False, caller_has_batch_shape=False):
-    """caller_has_batch_shape: the caller's own value of the batched key 'a' already has the shape of a batch column
+def batched(kind, K, B, grad_group=None, int_caller=False, caller_has_batch_shape=False, flat=False):
+    """flat: the per-sample table of a scalar parameter is given as a flat (B,) vector (one scalar per sample).
+    caller_has_batch_shape: the caller's own value of the batched key 'a' already has the shape of a batch column
     (a placeholder, or the batch of an earlier evaluation): the batch still decides"""
     K = tuple(K)
     def build():
         S = Scen(kind, B=B, a_shape=(B, 1) if caller_has_batch_shape else ())
         terms = TERMS[kind]
-        extra = [Inp("acol", (B, 1)), Inp("bcol", (B, 1))]
+        cshape = (B,) if flat else (B, 1)
+        row = (lambda c, i: c[i]) if flat else (lambda c, i: c[i, 0])
+        extra = [Inp("acol", cshape), Inp("bcol", cshape)]
         names = S.names(mask_shape=(len(terms), 3), extra=extra)
         base_inputs = S.inputs(mask_shape=(len(terms), 3), extra=extra)
         if int_caller:      # the caller's own (overridden) value of a batched key is integer typed
@@ -40,8 +43,8 @@ def batched(kind, K, B, grad_group=None, int_caller=False, caller_has_batch_shap
             loss, params, batch = S.loss_batch(a, derivative_keys=S.dkeys(a["mk"]), param_batch=pb(a), on=ON[kind])
             return loss.evaluate(params, batch)
         def term_specs(s):
-            return S.term_specs(s, a_rows=[s["acol"][i, 0] for i in range(B)] if "a" in K else None,
-                                b_rows=[s["bcol"][i, 0] for i in range(B)] if "b" in K else None, on=ON[kind])
+            return S.term_specs(s, a_rows=[row(s["acol"], i) for i in range(B)] if "a" in K else None,
+                                b_rows=[row(s["bcol"], i) for i in range(B)] if "b" in K else None, on=ON[kind])
         if grad_group is None:
             def fn(*args):
                 a = dict(zip(names, args))
@@ -80,6 +83,8 @@ def batched(kind, K, B, grad_group=None, int_caller=False, caller_has_batch_shap
         what += ".integer_typed_caller_value"
     if caller_has_batch_shape:
         what += ".caller_value_shaped_like_the_batch"
+    if flat:
+        what += ".flat_table"
     return EqObligation(f"C12/{cls.split(':')[1]}/ensures.param_batch.{what}[{kind},K={'+'.join(K) or 'none'},B={B}]", build,
                         [cls, PR + "_update_eq_params_dict", PR + "_get_vmap_in_axes_params"])
 
@@ -190,6 +195,8 @@ def obligations(tier):
         obs.append(batched(kind, ("a",), 2, int_caller=True))
         obs.append(batched(kind, ("a", "b"), 2, int_caller=True))
         obs.append(batched(kind, ("a",), 2, caller_has_batch_shape=True))
+        obs.append(batched(kind, ("a", "b"), 2, flat=True))           # one scalar per sample, given as a flat vector
+        obs.append(batched(kind, ("b",), 3 if tier == "thorough" else 2, flat=True))
         obs.append(observed_and_batched(kind, 2))
         for declared in ({"a": "h"}, {"b": "h", "a": None}, {}, {"a": "h", "b": "h"}):
             obs.append(hetero(kind, declared, "evaluate"))
